@@ -36,7 +36,8 @@ own = load(sys.argv[1])
 allp = load(sys.argv[2]) if len(sys.argv) > 2 else {}
 harm = {}
 for p in sys.argv[3:]:
-    harm.update(load(p))
+    for sid, row in load(p).items():            # later logs override earlier ones cell by cell
+        harm.setdefault(sid.replace("harmless/", ""), {}).update(row)
 L = ["# Seeded changes × checks", "",
      "`**X**` = VIOLATION with a concrete failing input (replay script), `nfi` = VIOLATION ending in "
      "`no-failing-input-found` (a proof obligation or the correspondence broke, no input on which the property "
